@@ -165,3 +165,32 @@ def sany(path):
     ok = p.returncode == 0 and "Semantic errors" not in p.stdout and "***Parse Error***" not in p.stdout \
         and "Fatal errors" not in p.stdout
     return ok, p.stdout
+
+
+SPURIOUS = []   # rejections that a fresh TLC process did not reproduce (reported in the evidence notes)
+
+
+def confirm_rejection(mod, cfg, workdir, tag, run, first, write_event=None, heap="3g", timeout=900):
+    """A trace that TLC rejects inside a concatenation of runs is validated again, alone, by a fresh TLC process.
+    An acceptance cannot be spurious (TLC has found a matching behaviour); a rejection that is not reproduced is the
+    tool's, not the code's: the run counts as accepted, both TLC outputs are kept under out/spurious for diagnosis.
+    Returns True if the rejection is reproduced."""
+    import json
+    path = os.path.join(workdir, f"{tag}_confirm.ndjson")
+    with open(path, "w") as f:
+        for e in run:
+            f.write(json.dumps(write_event(e) if write_event else e) + "\n")
+    res = run_tlc(mod, cfg, workdir, workers=1, timeout=timeout, dfs=True, heap=heap, env_extra={"TRACE": path},
+                  tags=("TRACE_REJECTED",), metaname=tag + "_confirm")
+    if not res.ok:
+        os.remove(path)
+        return True
+    d = os.path.join(OUT, "spurious")
+    os.makedirs(d, exist_ok=True)
+    k = len(os.listdir(d))
+    shutil.copy(path, os.path.join(d, f"{k}_{tag}.ndjson"))
+    with open(os.path.join(d, f"{k}_{tag}.first.txt"), "w") as f:
+        f.write(first.output[-20000:] if first is not None else "")
+    os.remove(path)
+    SPURIOUS.append(tag)
+    return False
